@@ -13,6 +13,23 @@
 #include "legalizer.hpp"
 #include "row_neighbourhood.hpp"
 
+#ifdef COLOQUINTE_VERIF
+// Verification call-out, compiled only with -DCOLOQUINTE_VERIF. It is invoked
+// at the end of DetailedPlacer::runShiftsOnCells with the min-cost-flow problem
+// that was built (nodes labelled by kind: 0 = cell, 1 = lower bound of a net,
+// 2 = upper bound of a net, 3 = fixed, with the cell or net index; arcs as
+// source/target node index and cost; node supplies) and with the solver's
+// answer (node potentials, arc flows), so that a test harness can certify the
+// solution. The default does nothing; a harness overrides it with a non-weak
+// definition of the same name.
+extern "C" __attribute__((weak)) void coloquinte_verif_shift_hook(
+    const void * /*placer*/, int /*nbCells*/, const int * /*cells*/,
+    int /*nbNodes*/, const int * /*nodeKind*/, const int * /*nodeId*/,
+    const long long * /*nodeSupply*/, const long long * /*nodePotential*/,
+    int /*nbArcs*/, const int * /*arcSource*/, const int * /*arcTarget*/,
+    const long long * /*arcCost*/, const long long * /*arcFlow*/) {}
+#endif
+
 namespace coloquinte {
 
 void DetailedPlacer::legalize(
@@ -543,6 +560,47 @@ void DetailedPlacer::runShiftsOnCells(const std::vector<int> &cells) {
     placement_.cellX_[c] = pos;
     xtopo_.updateCellPos(c, pos);
   }
+#ifdef COLOQUINTE_VERIF
+  {
+    int nbNodes = g.nodeNum();
+    int nbArcs = g.arcNum();
+    std::vector<int> nodeKind(nbNodes, -1);
+    std::vector<int> nodeId(nbNodes, -1);
+    for (int c : cells) {
+      nodeKind[g.id(cell_nodes[c])] = 0;
+      nodeId[g.id(cell_nodes[c])] = c;
+    }
+    for (int net : nets) {
+      nodeKind[g.id(Lnet_nodes[net])] = 1;
+      nodeId[g.id(Lnet_nodes[net])] = net;
+      nodeKind[g.id(Unet_nodes[net])] = 2;
+      nodeId[g.id(Unet_nodes[net])] = net;
+    }
+    nodeKind[g.id(fixed)] = 3;
+    nodeId[g.id(fixed)] = 0;
+    std::vector<long long> nodeSupply(nbNodes, 0);
+    std::vector<long long> nodePotential(nbNodes, 0);
+    for (NodeIt n(g); n != INVALID; ++n) {
+      nodeSupply[g.id(n)] = supply[n];
+      nodePotential[g.id(n)] = ns.potential(n);
+    }
+    std::vector<int> arcSource(nbArcs, -1);
+    std::vector<int> arcTarget(nbArcs, -1);
+    std::vector<long long> arcCost(nbArcs, 0);
+    std::vector<long long> arcFlow(nbArcs, 0);
+    for (ArcIt a(g); a != INVALID; ++a) {
+      arcSource[g.id(a)] = g.id(g.source(a));
+      arcTarget[g.id(a)] = g.id(g.target(a));
+      arcCost[g.id(a)] = cost[a];
+      arcFlow[g.id(a)] = ns.flow(a);
+    }
+    coloquinte_verif_shift_hook(this, (int)cells.size(), cells.data(), nbNodes,
+                                nodeKind.data(), nodeId.data(),
+                                nodeSupply.data(), nodePotential.data(), nbArcs,
+                                arcSource.data(), arcTarget.data(),
+                                arcCost.data(), arcFlow.data());
+  }
+#endif
 }
 
 struct ReorderingRegion {
